@@ -23,6 +23,11 @@ def run(ctx):
     summ = tc.optional_part(ctx, "progcheck", "run_mode", "grad", 3000 if ctx.quick() else 40000)
     if summ is not None:
         ctx.cov["program_level_gradcheck"] = summ
+    if not ctx.quick():
+        # the PRIMITIV_USE_CACHE=ON build has its own SparseSoftmaxCrossEntropy forward/backward bodies
+        s2 = tc.optional_part(ctx, "progcheck", "run_mode", "grad", 6000, variant="cache")
+        if s2 is not None:
+            ctx.cov["program_level_gradcheck_cache_build"] = {k: s2.get(k) for k in ("programs", "ok", "fail", "nontrivial", "coords_checked", "ops") if k in s2}
     confirm_d11(ctx)
     ctx.cov["rule"] = ("cases = (1) every modelled backward Device entry point on exact integer data with non-constant upstream gradients and non-zero prior accumulators, compared bitwise with the model; "
                        "(2) every elementwise backward formula against central finite differences on a grid of its smooth domain; (3) random well-typed DAG programs through the Node API (fan-out, "
